@@ -70,6 +70,18 @@ func validPool(p *Profile, sch *Schema, rng *rand.Rand, maxSize, ngen int) [][]b
 		}
 		out = append(out, s.Bytes())
 	}
+	// legal but unusual: a second file_id record of the same type with other content
+	for k := 0; k < 2; k++ {
+		arch := byte(k)
+		s := newStream(12+2*k, true)
+		s.Def(0, arch, 0, []FieldDef{{0, 1, 0}, {1, 2, 0x84}, {3, 4, 0x8C}}, nil)
+		s.Data(0, append(append([]byte{4}, wire(u16le(1), arch)...), wire(u32le(1144201745), arch)...))
+		s.Def(1, arch, 20, []FieldDef{{3, 1, 2}}, nil)
+		s.Data(1, []byte{80})
+		s.Data(0, append(append([]byte{4}, wire(u16le(15), arch)...), wire(u32le(142042709), arch)...))
+		s.Data(1, []byte{81})
+		out = append(out, s.Bytes())
+	}
 	return out
 }
 
@@ -118,10 +130,32 @@ func runC10(c *Ctx) {
 				continue
 			}
 			rs := readScript{chunks: ch, cut: -1, fault: -1, withEOF: j%2 == 1}
+			got := map[string]*Call{}
 			for _, api := range []string{"decode", "integrity", "header", "header_fileid", "integrity_hdr"} {
 				cl := run(api, trail, rs, fmt.Sprintf("pool[%d] + trailing bytes, chunks %v", i, ch))
+				got[api] = cl
 				if (api == "decode" || api == "integrity") && cl.Ret.Err == 0 && cl.Ret.Consumed != len(b) {
 					c.report("consumed", fmt.Sprintf("%s consumed %d bytes of a %d-byte file", api, cl.Ret.Consumed, len(b)), cl)
+				}
+			}
+			// DecodeHeader / DecodeHeaderAndFileID must return what Decode reports
+			if d := got["decode"]; d.Ret.Err == 0 && len(d.Ret.Files) == 1 {
+				want, _ := json.Marshal(d.Ret.Files[0].Hdr)
+				wantID, _ := json.Marshal(d.Ret.Files[0].FileId)
+				for _, api := range []string{"header", "header_fileid"} {
+					h := got[api]
+					if h.Ret.Err == 1 || len(h.Ret.Hdr) != 1 {
+						c.report("header-api-fails", api+" fails on a file that Decode accepts", h)
+						continue
+					}
+					if x, _ := json.Marshal(h.Ret.Hdr[0]); string(x) != string(want) {
+						c.report("header-differs", api+" returns another header than Decode reports", map[string]interface{}{"api": h, "decode": d})
+					}
+					if api == "header_fileid" {
+						if x, _ := json.Marshal(h.Ret.FileId[0]); string(x) != string(wantID) {
+							c.report("fileid-differs", "DecodeHeaderAndFileID returns another file_id than Decode reports", map[string]interface{}{"api": h, "decode": d})
+						}
+					}
 				}
 			}
 		}
